@@ -527,7 +527,7 @@ func runBatch(t ev.TB, part string, b *Batch) (classes []string, nontrivial bool
 	defer r.close()
 	for i := range b.Conns {
 		for j := range b.Conns[i].Reqs {
-			r.plans.Store(b.Conns[i].Reqs[j].Tok, &b.Conns[i].Reqs[j])
+			r.addPlan(&b.Conns[i].Reqs[j])
 		}
 	}
 	// the rig's own accept test of the listener (tcp: including its upstream connection) must be gone first
